@@ -560,3 +560,133 @@ pub fn run_reload(r: &mut Rng, n: usize, out: &mut Out) {
         let _ = std::fs::remove_dir_all(&dir);
     }
 }
+
+// ---------------------------------------------------------------------------------------------
+// C12: `load_zone_configuration` in-process (file order, directories, all-or-nothing)
+
+fn hosts_text(r: &mut Rng) -> String {
+    let names = ["alpha", "beta.lan", "gamma", "www.example.com", "router", "nas.lan"];
+    let mut s = String::new();
+    for _ in 0..r.range(0, 5) {
+        let n = *r.pick(&names);
+        if r.chance(1, 3) {
+            s.push_str(&format!("fd00::{:x} {}\n", r.below(4), n));
+        } else {
+            s.push_str(&format!("10.1.{}.{} {}{}\n", r.below(3), r.below(3), n, if r.chance(1, 4) { " extra.alias" } else { "" }));
+        }
+    }
+    s
+}
+
+pub fn run_config_load(r: &mut Rng, n: usize, out: &mut Out) {
+    let rt = tokio::runtime::Builder::new_current_thread().enable_all().build().unwrap();
+    let mut done = 0;
+    while done < n {
+        let dir = scratch("cfg");
+        let apexes = ["example.com.", "example.com.", "lan.", "sub.example.com.", "."];
+        // file placement: explicit list (CLI order) or one of two directories
+        let mut zone_files: Vec<PathBuf> = Vec::new();
+        let mut hosts_files: Vec<PathBuf> = Vec::new();
+        let zdirs = [dir.join("zd1"), dir.join("zd0")];
+        let hdirs = [dir.join("hd1"), dir.join("hd0")];
+        for d in zdirs.iter().chain(hdirs.iter()) {
+            std::fs::create_dir_all(d).unwrap();
+        }
+        let mut desc: Vec<String> = Vec::new();
+        let mut owners = vec![DomainName::root_domain()];
+        let mut used_names = std::collections::HashSet::new();
+        for i in 0..r.range(1, 5) {
+            let apex = DomainName::from_dotted_string(*r.pick(&apexes)).unwrap();
+            let (gz, text) = stable_zone(r, Some(apex), 5);
+            owners.extend(gz.owners.iter().cloned());
+            let fname = format!("{}{}.zone", (b'a' + r.below(26) as u8) as char, i);
+            if !used_names.insert(fname.clone()) {
+                continue;
+            }
+            let bad = r.chance(1, 15);
+            let content: Vec<u8> = if bad { b"$INCLUDE nope\n".to_vec() } else { text.into_bytes() };
+            let body = if bad { "BAD".to_string() } else { gz.spec.clone() };
+            match r.below(3) {
+                0 => {
+                    let p = dir.join(&fname);
+                    std::fs::write(&p, &content).unwrap();
+                    zone_files.push(p);
+                    desc.push(format!("zf:{fname}={body}"));
+                }
+                k => {
+                    let d = &zdirs[k - 1];
+                    std::fs::write(d.join(&fname), &content).unwrap();
+                    desc.push(format!("zd{}:{fname}={body}", k - 1));
+                }
+            }
+        }
+        // explicit files are passed in a shuffled order: the configured order is what counts
+        for i in (1..zone_files.len()).rev() {
+            let j = r.below(i + 1);
+            zone_files.swap(i, j);
+        }
+        let zf_order: Vec<String> = zone_files.iter().map(|p| p.file_name().unwrap().to_string_lossy().into_owned()).collect();
+        for i in 0..r.range(0, 3) {
+            let text = hosts_text(r);
+            let fname = format!("{}{}.hosts", (b'a' + r.below(26) as u8) as char, i);
+            let bad = r.chance(1, 15);
+            let content: Vec<u8> = if bad { b"not-an-address name\n".to_vec() } else { text.clone().into_bytes() };
+            let body = c::hex(&content);
+            match r.below(3) {
+                0 => {
+                    let p = dir.join(&fname);
+                    std::fs::write(&p, &content).unwrap();
+                    hosts_files.push(p);
+                    desc.push(format!("hf:{fname}={body}"));
+                }
+                k => {
+                    let d = &hdirs[k - 1];
+                    std::fs::write(d.join(&fname), &content).unwrap();
+                    desc.push(format!("hd{}:{fname}={body}", k - 1));
+                }
+            }
+        }
+        hosts_files.reverse();
+        let hf_order: Vec<String> = hosts_files.iter().map(|p| p.file_name().unwrap().to_string_lossy().into_owned()).collect();
+        let zd: Vec<PathBuf> = zdirs.to_vec();
+        let hd: Vec<PathBuf> = hdirs.to_vec();
+        let loaded = rt.block_on(resolved::fs::load_zone_configuration(&hosts_files, &hd, &zone_files, &zd));
+        let hosts_names: Vec<DomainName> = ["alpha.", "beta.lan.", "gamma.", "www.example.com.", "router.", "nas.lan.", "extra.alias."]
+            .iter()
+            .map(|s| DomainName::from_dotted_string(s).unwrap())
+            .collect();
+        owners.extend(hosts_names);
+        let nq = r.range(4, 10);
+        let mut qs = Vec::new();
+        let mut answers = Vec::new();
+        for _ in 0..nq {
+            let qname = query_name(r, &owners, &DomainName::root_domain());
+            let qt = QueryType::from(*r.pick(&[1u16, 1, 28, 2, 5, 6, 16, 255]));
+            let text = match &loaded {
+                None => "-".to_string(),
+                Some(zones) => match zones.resolve(&qname, qt) {
+                    None => "nozone".to_string(),
+                    Some((zone, res)) => format!(
+                        "{} {} {}",
+                        c::name(zone.get_apex()),
+                        zone.soa_rr().map_or("-".to_string(), |rr| c::rr(&rr)),
+                        crate::streams::zone::zone_result_text(qt, &Some(res))
+                    ),
+                },
+            };
+            qs.push(format!("{}|{}", c::name(&qname), u16::from(qt)));
+            answers.push(text);
+        }
+        out.case(
+            &[
+                "config.load",
+                &if desc.is_empty() { "-".to_string() } else { desc.join("&") },
+                &format!("{}#{}", zf_order.join(","), hf_order.join(",")),
+                &qs.join("+"),
+            ],
+            &format!("{}#{}", if loaded.is_some() { "loaded" } else { "failed" }, answers.join("+")),
+        );
+        done += 1;
+        let _ = std::fs::remove_dir_all(&dir);
+    }
+}
